@@ -34,8 +34,8 @@ type raceStep struct {
 	q    float64
 }
 
-func genRaceSteps(c *core.Ctx, r *rng.Rng, m *gen.Map, spec gen.StoreSpec, exact bool, pool []float64, n int) []raceStep {
-	h := &histGen{c: c, r: r, m: m, spec: spec, exact: exact, pool: pool, anySpec: true, sameTarget: true}
+func genRaceSteps(c *core.Ctx, r *rng.Rng, m *gen.Map, spec gen.StoreSpec, exact bool, pool []float64, n int, budget *gen.Budget) []raceStep {
+	h := &histGen{c: c, r: r, m: m, spec: spec, exact: exact, pool: pool, anySpec: true, sameTarget: true, budget: budget}
 	h.weights = [opNumKinds]int{40, 20, 6, 4, 2, 4, 3, 0, 2, 0}
 	var steps []raceStep
 	for _, op := range h.gen(n) {
@@ -114,9 +114,10 @@ func RacePair(seed uint64, i int) (mismatch string, steps int) {
 	}
 	exact := r.P(0.4)
 	vs := genValues(c, r, m, gen.StoreSpec{Kind: gen.SDense}, r.Range(4, 40), []string{"mixed", "mixed+zeros", "pos"}[r.Intn(3)], randSigmaIdx(r, 100))
-	h0 := genRaceSteps(c, r, m, spec, exact, vs.vals, r.Range(1, 40))
-	sa := genRaceSteps(c, r.Fork(), m, spec, exact, vs.vals, r.Range(5, 40))
-	sb := genRaceSteps(c, r.Fork(), m, spec, exact, vs.vals, r.Range(5, 40))
+	budget := &gen.Budget{}
+	h0 := genRaceSteps(c, r, m, spec, exact, vs.vals, r.Range(1, 40), budget)
+	sa := genRaceSteps(c, r.Fork(), m, spec, exact, vs.vals, r.Range(5, 40), budget)
+	sb := genRaceSteps(c, r.Fork(), m, spec, exact, vs.vals, r.Range(5, 40), budget)
 
 	S := mon.NewSketch(exact, m.M, spec)
 	runSteps(&S, spec, m, h0)
